@@ -2,7 +2,8 @@
    (9 1 shape k)                   ShapeIterator over a shape (zero lengths allowed), k calls of next()
    (9 2 kind wi src k)             tensor iterators; kind 0 copy 1 reference 2 mutable reference 3 owned;
                                    wi: WithIndex; src: (0 shape data) | (1 src names) reverse |
-                                   (2 src ((start len)..)) range | (3 src names) access | (4 src names) transpose
+                                   (2 src ((start len)..)) range | (3 src names) access | (4 src names) transpose |
+                                   (5 src ((start len)..)) mask | (6 src names) rename
    (9 3 order mode wi src arg k)   matrix iterators; order 0 column 1 row 2 column-major 3 row-major
                                    4 diagonal; mode 0 copy 1 reference 2 mutable 3 owned;
                                    src: (0 rows cols data) | (1 src (rs rl) (cs cl)) range | (2 src rr rc) reverse
@@ -45,6 +46,14 @@ def src_shape(src):
             e = min(s + n, l)
             out.append(max(e - s, 0))
         return names, out
+    if tag == 5:
+        out = []
+        for l, (s, n) in zip(lens, src[2]):
+            e = min(s + n, l)
+            out.append(l - max(e - s, 0))
+        return names, out
+    if tag == 6:
+        return list(src[2]), lens
     pos = [names.index(n) for n in src[2]]
     if tag == 3:
         return list(src[2]), [lens[p] for p in pos]
@@ -66,12 +75,34 @@ def titer_cases(src, rng, all_k_mut=True, kinds=(0, 1, 2, 3)):
                 yield sx([9, 2, kind, wi, src, k])
 
 
-def random_view(base, rng, depth):
+def random_view(base, rng, depth, only=None):
     src = base
     for _ in range(depth):
         names, lens = src_shape(src)
         D = len(names)
-        t = rng.choice([1, 2, 3, 4])
+        t = only if only is not None else rng.choice([1, 2, 3, 4, 5, 6])
+        if t == 5:
+            mk = []
+            for l in lens:
+                if l == 1 or rng.random() < 0.4:
+                    mk.append([rng.randrange(0, l + 1), 0])
+                else:
+                    s = rng.randrange(0, l)
+                    mk.append([s, rng.randrange(0, l - 1 if s == 0 else l - s + 1) if l > 1 else 0])
+            # never mask a whole dimension away
+            for d, (l, (s, n)) in enumerate(zip(lens, mk)):
+                if max(min(s + n, l) - s, 0) >= l:
+                    mk[d] = [s, 0]
+            src = [5, src, mk]
+            continue
+        if t == 6:
+            pool = [x for x in range(12) if x not in names]
+            new = list(names)
+            for d in range(D):
+                if rng.random() < 0.5 and pool:
+                    new[d] = pool.pop(rng.randrange(len(pool)))
+            src = [6, src, new]
+            continue
         if t == 1:
             src = [1, src, rng.sample(names, rng.randrange(0, D + 1))]
         elif t == 2:
@@ -126,6 +157,12 @@ def gen(tier, rng):
     for D in range(0, 5):
         for lens in itertools.product(range(0, 4), repeat=D):
             yield sx([9, 1, tshape(lens), elements(lens) + 3])
+    # D = 5, 6: every shape with lengths 0..2
+    for D in (5, 6):
+        for lens in itertools.product(range(0, 3), repeat=D):
+            if quick and 0 in lens and rng.random() < 0.6:
+                continue
+            yield sx([9, 1, tshape(lens), elements(lens) + 3])
     for _ in range(200 if quick else 2000):
         D = rng.randrange(1, 7)
         lens = [rng.choice([0, 1, 1, 2, 2, 3, 4, 5]) for _ in range(D)]
@@ -140,12 +177,18 @@ def gen(tier, rng):
     for D in range(0, 5):
         for lens in itertools.product(range(1, 4), repeat=D):
             n = elements(lens)
-            small = n <= (12 if quick else 30)
+            small = n <= (27 if quick else 81)
             yield from titer_cases(tbase(lens), rng, all_k_mut=small)
+    # ---- D = 5, 6 over a Tensor: every shape with lengths 1..2
+    for D in (5, 6):
+        for lens in itertools.product(range(1, 3), repeat=D):
+            if quick and rng.random() < 0.5:
+                continue
+            yield from titer_cases(tbase(lens), rng, all_k_mut=False)
     # ---- one adaptor over a tensor, D <= 3
     for D in range(1, 4):
         for lens in itertools.product(range(1, 4), repeat=D):
-            if quick and elements(lens) > 12:
+            if quick and elements(lens) > 18:
                 continue
             names = list(range(D))
             base = tbase(lens)
@@ -162,10 +205,13 @@ def gen(tier, rng):
                     s = rng.randrange(0, l)
                     rg.append([s, rng.randrange(1, l - s + 2)])
                 views.append([2, base, rg])
+            for _ in range(3):
+                views.append(random_view(base, rng, 1, only=5))
+            views.append([6, base, [n + 7 for n in names]])
             for v in views:
                 yield from titer_cases(v, rng, all_k_mut=elements(src_shape(v)[1]) <= 6)
     # ---- random compositions (depth 2..3), D <= 6
-    for _ in range(400 if quick else 6000):
+    for _ in range(1500 if quick else 8000):
         D = rng.randrange(1, 7) if rng.random() < 0.3 else rng.randrange(1, 4)
         lens = [rng.choice([1, 2, 2, 3, 3, 4]) for _ in range(D)]
         while elements(lens) > 60:
@@ -180,11 +226,15 @@ def gen(tier, rng):
     yield sx([9, 2, 2, 0, [4, tbase([2, 2]), [1, 1]], 3])
     yield sx([9, 2, 3, 0, [2, tbase([2, 2]), [[2, 1], [0, 1]]], 3])
     yield sx([9, 2, 0, 0, [0, tshape([2, 2]), [1, 2, 3]], 3])
+    yield sx([9, 2, 0, 0, [5, tbase([2, 2]), [[0, 2], [0, 0]]], 3])
+    yield sx([9, 2, 1, 0, [6, tbase([2, 2]), [4, 4]], 3])
 
     # ---- matrix iterators: every size 1..4 x 1..4 over a Matrix
-    for r in range(1, 5):
-        for c in range(1, 5):
-            yield from miter_cases(mbase(r, c), rng, all_k_mut=(r * c <= (9 if quick else 16)))
+    for r in range(1, 6):
+        for c in range(1, 6):
+            if max(r, c) == 5 and quick and rng.random() < 0.5:
+                continue
+            yield from miter_cases(mbase(r, c), rng, all_k_mut=(r * c <= (16 if quick else 25)))
     # ---- range views incl. empty ones (0xN, Nx0, 0x0), reversed views, compositions
     for r in range(1, 4):
         for c in range(1, 4):
@@ -194,14 +244,14 @@ def gen(tier, rng):
                 for rl in sorted({0, 1, r - rs, r + 1}):
                     for cs in range(0, c + 1):
                         for cl in sorted({0, 1, c - cs, c + 1}):
-                            if rng.random() < (0.35 if quick else 1.0) or rl == 0 or cl == 0 and rng.random() < 0.5:
+                            if rng.random() < (0.7 if quick else 1.0) or rl == 0 or cl == 0:
                                 views.append([1, base, [rs, rl], [cs, cl]])
             for rv in (0, 1):
                 for cv in (0, 1):
                     views.append([2, base, rv, cv])
             for v in views:
                 yield from miter_cases(v, rng, all_k_mut=False)
-    for _ in range(150 if quick else 3000):
+    for _ in range(600 if quick else 4000):
         r, c = rng.randrange(1, 6), rng.randrange(1, 6)
         src = mbase(r, c, off=rng.randrange(-50, 50))
         for _ in range(rng.choice([2, 2, 3])):
